@@ -44,6 +44,29 @@ where
       let d ← tmOf toks d; let rest ← psOf toks rest; pure (.cons id ⟨i, t.name⟩ d rest)
     | _ => none
 
+/-- names of the functions defined along a block (Erg makes them visible in the whole block) -/
+def funNames : Tm → List String
+  | .letv _ _ _ rest => funNames rest
+  | .letf _ t _ _ rest => t.name :: funNames rest
+  | .app _ b => funNames b
+  | _ => []
+
+mutual
+  /-- a name is referenced in a block BEFORE a function of that name is defined later in the same block: Erg resolves such a reference to
+      the later function (forward reference), which the model's sequential scoping does not describe — such programs are out of model -/
+  def fwdT : Tm → Bool
+    | .var _ => false
+    | .lit => false
+    | .app a b => fwdT a || fwdT b || (namesT a).any (fun n => (funNames b).contains n)
+    | .lam ps body => fwdPs ps || fwdT body
+    | .letv _ _ rhs rest => fwdT rhs || fwdT rest || (namesT rhs).any (fun n => (funNames rest).contains n)
+    | .letf _ _ ps body rest =>
+      fwdPs ps || fwdT body || fwdT rest || (namesPs ps ++ namesT body).any (fun n => (funNames rest).contains n)
+  def fwdPs : Ps → Bool
+    | .nil => false
+    | .cons _ _ d rest => fwdT d || fwdPs rest
+end
+
 /-- binders of the module level: the chain of definitions along the top-level block -/
 def topBinders : Tm → List Nat
   | .letv id _ _ rest => id :: topBinders rest
@@ -62,6 +85,11 @@ def sortTriples (l : List (Nat × Nat × Nat)) : List (Nat × Nat × Nat) :=
 def showEdits (l : List (Nat × Nat × Nat)) : String :=
   String.join (l.map (fun e => " (" ++ toString e.1 ++ " " ++ toString e.2.1 ++ " " ++ toString e.2.2 ++ ")"))
 
+/-- index of the character at UTF-16 column `col` (clamped; a column inside a surrogate pair counts as after the character) -/
+def u16idx : List Char → Nat → Nat
+  | [], _ => 0
+  | c :: cs, k => if k = 0 then 0 else 1 + u16idx cs (k - (if c.toNat ≥ 65536 then 2 else 1))
+
 /-- apply one-line edits to the text, from the last to the first (columns clamped to the line) -/
 def applyEdits (src : List Char) (new : List Char) (edits : List (Nat × Nat × Nat)) : List Char :=
   let lines := (String.ofList src).splitOn "\n" |>.map String.toList
@@ -69,8 +97,8 @@ def applyEdits (src : List Char) (new : List Char) (edits : List (Nat × Nat × 
   let lines := desc.foldl (fun (ls : List (List Char)) e =>
       ls.zipIdx.map (fun (ln, k) =>
         if k = e.1 then
-          let c0 := min e.2.1 ln.length
-          let c1 := min (max e.2.2 e.2.1) ln.length
+          let c0 := u16idx ln e.2.1
+          let c1 := u16idx ln (max e.2.2 e.2.1)
           ln.take c0 ++ new ++ ln.drop c1
         else ln)) lines
   "\n".toList.intercalate lines
@@ -93,6 +121,7 @@ def progCase (id : String) (items : List Sexp) (impl : String) (haveImpl : Bool)
       match tmOf toks tmx with
       | none => id ++ "\tbad-input(tm)\t-\t-"
       | some tm =>
+        if fwdT tm then id ++ "\tout-of-model(forward-reference-to-a-later-local-function)\t-\t-" else
         let res := resT [] tm
         let binderOf := fun (i : Nat) => (res.find? (fun x => x.1.idx = i)).bind (·.2)
         let tab := fun (i : Nat) => toks[i]?.map (·.pos)
@@ -114,11 +143,12 @@ def progCase (id : String) (items : List Sexp) (impl : String) (haveImpl : Bool)
           | none => none
         let topIds := topBinders tm
         let nameOf := fun (i : Nat) => (toks[i]?.map (·.name)).getD ""
-        -- class of `C30-nested-def-site-empty`: the token is the definition site of a binder that is not at module level while a
-        -- module-level binder has the same name
+        -- class of `C30-nested-def-site-empty`: the token is the definition site of a binder that is not at module level while ANOTHER
+        -- binder of the program (module level, another function's parameter or local) has the same name
+        let allBinders := (res.filterMap (·.2)).eraseDups
         let shadowDef := fun (i : Nat) => match binderOf i with
           | some b => binderTok b == some i && !topIds.contains b &&
-              topIds.any (fun b' => match binderTok b' with | some t => nameOf t == nameOf i | none => false)
+              allBinders.any (fun b' => b' != b && (match binderTok b' with | some t => nameOf t == nameOf i | none => false))
           | none => false
         let lamIds := (lamParamsT tm).map (·.1)
         let rows := (List.range toks.size).map (fun i =>
@@ -134,8 +164,14 @@ def progCase (id : String) (items : List Sexp) (impl : String) (haveImpl : Bool)
           let sites := sitesOf (binderOf i)
           let want := sortTriples (renameEdits tab false sites)
           let isLam := match binderOf i with | some b => lamIds.contains b | none => false
+          let afterMixed := match tab i with
+            | some p =>
+              let ln := (((String.ofList src).splitOn "\n").getD p.line "").toList
+              let pre := ln.take (u16idx ln p.col)
+              pre.contains '\\' && pre.any (fun c => c.toNat ≥ 128)
+            | none => false
           if sortTriples got == want && !dups.contains i then none
-          else some (i, drifted i || sites.any drifted, (dups.contains i && isLam) || (empties.contains i && shadowDef i))
+          else some (i, drifted i || sites.any drifted, (dups.contains i && isLam) || (empties.contains i && (shadowDef i || afterMixed)))
         let implRows : List (Nat × List (Nat × Nat × Nat)) := match Sexp.parseAll impl.toList with
           | some xs => xs.filterMap (fun (x : Sexp) => match x with
               | .list (.atom "r" :: .atom i :: es) => match i.toNat?, editsOf es with
@@ -161,8 +197,9 @@ def progCase (id : String) (items : List Sexp) (impl : String) (haveImpl : Bool)
             (if bad.any (·.2.1) then "viol:range-drift" else if bad.any (fun x => dups.contains x.1) then "viol:duplicate-edit" else "viol:empty-edit-at-definition") ++ " (binders" ++ String.join (badBinders.map (fun b => " " ++ toString b)) ++ ")"
           else "viol:wrong-edit-set (tokens" ++ String.join ((bad.filter (fun x => !(x.2.1 || x.2.2))).map (fun x => " " ++ toString x.1)) ++ ")"
         let ink := if bad.isEmpty || !bad.all (fun x => x.2.1 || x.2.2) then "-"
-          else if bad.any (·.2.1) then "C30-range-drift-after-escape"
-          else if bad.any (fun x => dups.contains x.1) then "C30-lambda-param-duplicate-edit" else "C30-nested-def-site-empty"
+          else if bad.any (·.2.1) then "C30-column-not-utf16"
+          else if bad.any (fun x => dups.contains x.1) then "C30-lambda-param-duplicate-edit"
+          else if bad.any (fun x => shadowDef x.1) then "C30-nested-def-site-empty" else "C30-empty-after-escaped-nonascii-string"
         id ++ "\t" ++ model ++ "\t" ++ spec ++ "\t" ++ ink
   | _, _, _, _ => id ++ "\tbad-input\t-\t-"
 
